@@ -205,13 +205,7 @@ theorem start_row_sound (rs : RowSet) (r : KeyRange)
     have hstart : startRowid rs (some ⟨lo, hi⟩) =
         startWalk b ((blockStarts (rs.blocks.getD 0 [])).map fun s => (s, firstKeyI32 (Row.at (rs.rows.getD s []) 0))) 0 := by
       rcases hcase with ⟨rfl, _⟩ | ⟨rfl, _⟩ <;> rfl
-    have hall : ∀ x ∈ (blockStarts (rs.blocks.getD 0 [])).map (fun s => (s, firstKeyI32 (Row.at (rs.rows.getD s []) 0))),
-        ∃ fv, x.2 = some fv := by
-      intro x hx
-      obtain ⟨s, hs, rfl⟩ := List.mem_map.1 hx
-      obtain ⟨i, hi1, hi2, hi3⟩ := hkey _ (getD_mem rs.rows s [] (hstarts s hs))
-      exact ⟨i, by simp only [hi1]; exact firstKey_i32_roundtrip i hi2 hi3⟩
-    obtain ⟨res, hres, hcases⟩ := startWalk_spec b _ 0 hall
+    obtain ⟨res, hres, hcases⟩ := startWalk_spec b ((blockStarts (rs.blocks.getD 0 [])).map fun s => (s, firstKeyI32 (Row.at (rs.rows.getD s []) 0))) 0
     refine ⟨res, by rw [hstart]; exact hres, ?_⟩
     rcases hcases with h0 | ⟨x, hx, hx1, fv, hfv, hle⟩
     · subst h0; simp
